@@ -216,37 +216,47 @@ theorem C17_order_independent (alg : Alg) (ns : String) (parts replica : Nat) (o
   unfold place
   rw [h.length_eq, getNodeNameList_perm h]
 
-/-- **v2 answers** (no `nil.(loadItem)` panic = §9-F5, no index panic): whenever no old list is longer than
-    the replication factor, the old layout has no more partitions than requested, `replica ≥ 1` and
-    there are enough nodes. (With `C17_v2_shape_distinct`: the answer is a valid layout.) -/
+/-- **v2 answers** (no `nil.(loadItem)` panic = §9-F5, no index panic) for EVERY old layout that has no
+    more partitions than requested — old ISR lists of any length (mid-migration lists longer than the
+    replication factor included), with any number of dead names — whenever `replica ≥ 1` and there are
+    enough nodes. (With `C17_v2_shape_distinct`: the answer is a valid layout.) -/
 theorem C17_v2_total (ns : String) (parts replica : Nat) (old : List (List String))
     (nodes : List (String × String)) (hv : ValidNodes nodes) (hr0 : 0 < replica) (h : replica ≤ nodes.length)
-    (hold : ∀ ol ∈ old, ol.length ≤ replica) (hparts : old.length ≤ parts) :
+    (hparts : old.length ≤ parts) :
     ∃ layout, place .v2 ns parts replica old nodes = .ok layout := by
   rw [place_eq_of_enough .v2 ns parts replica old nodes h]
   simp only [fillAlg]
-  exact fillV2_total _ _ _ _ _ (ring_nodup hv) hr0 (by rw [ring_length]; exact h) hold hparts
+  exact fillV2_total _ _ _ _ _ (ring_nodup hv) hr0 (by rw [ring_length]; exact h) hparts
 
 /-- the full strength the property asks for — *every* previous layout reachable by node loss/addition,
-    which includes ISR lists longer than `replica` in mid-migration — is FALSE for the code as it is:
-    `C17_v2_total_full` fails on the witness below (§9-F5, replayed on the real code by `bin/check C17`) -/
-def C17_v2_total_full : Prop :=
-  ∀ (sel parts replica : Nat) (old : List (List Nat)) (sorted : List Nat), sorted.Nodup → 0 < replica →
-    replica ≤ sorted.length → (∀ ol ∈ old, ol.Nodup) → old.length ≤ parts →
-    ∃ rows, fillV2 sel parts replica old sorted = .ok rows
+    which includes ISR lists longer than `replica` in mid-migration: the incremental algorithm either
+    refuses (exactly when there are fewer live nodes than replicas) or answers with a valid layout (one
+    list per partition, exactly `replica` pairwise different live names each). No third outcome: the
+    `nil.(loadItem)` panic of §9-F5 is unreachable. -/
+theorem C17_v2_total_full (ns : String) (parts replica : Nat) (old : List (List String))
+    (nodes : List (String × String)) (hv : ValidNodes nodes) (hr0 : 0 < replica)
+    (hold : ∀ ol ∈ old, ol.Nodup) (hparts : old.length ≤ parts) :
+    (nodes.length < replica ∧ place .v2 ns parts replica old nodes = .refused) ∨
+    (replica ≤ nodes.length ∧ ∃ layout, place .v2 ns parts replica old nodes = .ok layout ∧
+      layout.length = parts ∧
+      ∀ row ∈ layout, row.length = replica ∧ row.Nodup ∧ ∀ x ∈ row, x ∈ nodes.map (·.1)) := by
+  rcases Nat.lt_or_ge nodes.length replica with hlt | hge
+  · exact Or.inl ⟨hlt, place_refused_of_few .v2 ns parts replica old nodes hlt⟩
+  · obtain ⟨layout, hl⟩ := C17_v2_total ns parts replica old nodes hv hr0 hge hparts
+    obtain ⟨a, b⟩ := C17_v2_shape_distinct ns parts replica old nodes hv hold layout hl
+    exact Or.inr ⟨hge, layout, hl, a, b⟩
 
-/-- F5 inside the model: old list `[9,1,2,3]` (4 > replica 3, leader 9 dead) over the live ring `[1,2,3]`:
-    every live name is excluded, the candidate treemap is empty, the Go code panics -/
-theorem C17_F5_witness : fillV2 0 1 3 [[9, 1, 2, 3]] [1, 2, 3] = .panicEmpty
-    ∧ fillV2 0 1 3 [[1, 2, 9, 3]] [1, 2, 3] = .panicEmpty      -- dead FOLLOWER, leader alive: same panic
-    ∧ fillV2 0 1 3 [[9, 1, 2]] [1, 2, 3] = .ok [[3, 1, 2]]     -- old list of length `replica`: repaired
-    ∧ ¬ C17_v2_total_full := by
-  refine ⟨by decide, by decide, by decide, ?_⟩
-  intro h
-  obtain ⟨rows, hr⟩ := h 0 1 3 [[9, 1, 2, 3]] [1, 2, 3] (by decide) (by decide) (by decide) (by decide) (by decide)
-  have : fillV2 0 1 3 [[9, 1, 2, 3]] [1, 2, 3] = .panicEmpty := by decide
-  rw [this] at hr
-  cases hr
+/-- and with no assumption on the old layout at all (not even on its number of partitions or on repeated
+    names): the `nil.(loadItem)` panic of §9-F5 — an empty candidate set — is not an outcome of the
+    incremental algorithm, for any node map and any `replica ≥ 1` -/
+theorem C17_v2_never_empty_candidates (ns : String) (parts replica : Nat) (old : List (List String))
+    (nodes : List (String × String)) (hv : ValidNodes nodes) (hr0 : 0 < replica) :
+    place .v2 ns parts replica old nodes ≠ .panicEmpty := by
+  rcases Nat.lt_or_ge nodes.length replica with hlt | hge
+  · rw [place_refused_of_few .v2 ns parts replica old nodes hlt]; simp
+  · rw [place_eq_of_enough .v2 ns parts replica old nodes hge]
+    simp only [fillAlg]
+    exact fillV2_ne_panicEmpty _ _ _ _ _ (ring_nodup hv) hr0 (by rw [ring_length]; exact hge)
 
 /-! ### non-vacuity: the hypotheses instantiated on concrete topologies -/
 
@@ -269,12 +279,37 @@ example (layout : List (List String)) (hl : place .v1 "ns" 12 3 [] ex6 = .ok lay
 example : place .v2 "ns" 4 7 [] ex6 = .refused := (C17_refuses .v2 "ns" 4 7 []).1 ex6 (by decide)
 
 example : ∃ layout, place .v2 "ns" 4 3 [["n1", "gone", "n3"], ["n9", "n2"]] ex6 = .ok layout :=
-  C17_v2_total "ns" 4 3 _ ex6 (by decide) (by decide) (by decide) (by decide) (by decide)
+  C17_v2_total "ns" 4 3 _ ex6 (by decide) (by decide) (by decide) (by decide)
+
+/-- the former witnesses of §9-F5 (old list longer than the replication factor, a dead name among its first
+    `replica` positions, every live name in the list) now yield valid placements: the extra old member
+    takes the place of the dead one, the live old members keep their positions -/
+example : fillV2 0 1 3 [[9, 1, 2, 3]] [1, 2, 3] = .ok [[3, 1, 2]]        -- dead leader
+    ∧ fillV2 0 1 3 [[1, 2, 9, 3]] [1, 2, 3] = .ok [[1, 2, 3]]            -- dead follower
+    ∧ fillV2 0 1 3 [[1, 9, 2, 3, 8]] [1, 2, 3] = .ok [[1, 3, 2]]         -- two extra members, one dead
+    ∧ fillV2 0 1 3 [[9, 1, 2]] [1, 2, 3] = .ok [[3, 1, 2]] := by         -- old list of length `replica`
+  refine ⟨by decide, by decide, by decide, by decide⟩
+
+/-- the same on the entry point, on the op line of corpus/C17/place-f5.txt
+    (`nodes=A@,B@,C@ old=D,A,B,C`, replica 3): a layout, and a valid one -/
+example : (3 ≤ [("A", ""), ("B", ""), ("C", "")].length ∧
+    ∃ layout, place .v2 "ns" 1 3 [["D", "A", "B", "C"]] [("A", ""), ("B", ""), ("C", "")] = .ok layout ∧
+      layout.length = 1 ∧
+      ∀ row ∈ layout, row.length = 3 ∧ row.Nodup ∧ ∀ x ∈ row, x ∈ [("A", ""), ("B", ""), ("C", "")].map (·.1)) :=
+  (C17_v2_total_full "ns" 1 3 [["D", "A", "B", "C"]] [("A", ""), ("B", ""), ("C", "")]
+    (by decide) (by decide) (by decide) (by decide)).resolve_left (by decide)
+
+example : ∃ layout, place .v2 "ns" 4 3 [["n1", "gone", "n3", "n7"], ["n9", "n2", "n10", "n1", "n3"]] ex6 = .ok layout :=
+  C17_v2_total "ns" 4 3 _ ex6 (by decide) (by decide) (by decide) (by decide)
 
 example (layout : List (List String))
     (hl : place .v2 "ns" 4 3 [["n1", "gone", "n3", "n7"], ["n9", "n2"]] ex6 = .ok layout) :
     layout.length = 4 ∧ ∀ row ∈ layout, row.length = 3 ∧ row.Nodup ∧ ∀ x ∈ row, x ∈ ex6.map (·.1) :=
   C17_v2_shape_distinct "ns" 4 3 _ ex6 (by decide) (by decide) layout hl
+
+/-- more old partitions than requested, repeated names, over-long lists: still no empty candidate set -/
+example : place .v2 "ns" 1 3 [["n1", "n1", "gone", "n3", "n7"], ["n9", "n2"], []] ex6 ≠ .panicEmpty :=
+  C17_v2_never_empty_candidates "ns" 1 3 _ ex6 (by decide) (by decide)
 
 example : place .v2 "ns" 4 3 [] ex6 = place .v2 "ns" 4 3 [] ex6.reverse :=
   C17_order_independent .v2 "ns" 4 3 [] ex6 ex6.reverse (List.reverse_perm ex6).symm
@@ -289,5 +324,6 @@ end Z.Props.C17
 #print axioms Z.Props.C17.C17_refuses_only_when_short
 #print axioms Z.Props.C17.C17_v2_shape_distinct
 #print axioms Z.Props.C17.C17_v2_total
-#print axioms Z.Props.C17.C17_F5_witness
+#print axioms Z.Props.C17.C17_v2_total_full
+#print axioms Z.Props.C17.C17_v2_never_empty_candidates
 #print axioms Z.Props.C17.C17_order_independent
